@@ -1236,6 +1236,20 @@ class Engine(Executor):
         o.lt = o.lt.cat(self.iter_lt(st, args[0]))
         return [(st, sv_none())]
 
+    def b_dict_get(self, st, args, kwargs, fn):
+        """d.get(k[, default]): the value d[k], or the default (None) where d[k] raises KeyError"""
+        default = args[1] if len(args) > 1 else kwargs.get("default", sv_none())
+        out: List[Res] = []
+        for s, v in self.subscript(st, fn.bound, args[0]):
+            if isinstance(v, Exc):
+                if v.cls != "KeyError":
+                    out.append((s, v))
+                    continue
+                out.append((s, default))
+            else:
+                out.append((s, v))
+        return out
+
     def _iterated_dict(self, o: DictObj) -> None:
         if o.tail is not None and not o.distinct_keys:
             self.note_assumption("iteration over a dict filled by a loop over a symbolic sequence: the inserted keys are "
